@@ -49,10 +49,10 @@ const LazyCallRes = "b27 rep8[s8 s8] b1 var s16 s16"
 // Offsets into a call req / call res / error frame payload implied by the layouts above.
 var Offsets = map[string]int64{
 	"_flagsIndex":       0,
-	"_ttlIndex":         1,      // after flags:1
-	"_ttlLen":           4,      // ttl:4
-	"_spanIndex":        1 + 4,  // after flags, ttl
-	"_spanLength":       25,     // tracing:25
+	"_ttlIndex":         1,     // after flags:1
+	"_ttlLen":           4,     // ttl:4
+	"_spanIndex":        1 + 4, // after flags, ttl
+	"_spanLength":       25,    // tracing:25
 	"_serviceLenIndex":  1 + 4 + 25,
 	"_serviceNameIndex": 1 + 4 + 25 + 1,
 	"_resCodeIndex":     1, // call res: after flags:1
